@@ -91,6 +91,16 @@ def gen_case(rng, allow=None):
         elif r < 0.7:
             inner = ("u", "not", inner)
         f = un(inner)
+    elif allow is None and rng.random() < 0.12:
+        # variables used directly as formulas, one of them under `not` / unary minus / abs, and read again by another operator
+        # (a visitor that hands back or changes the list of its operand shows only then)
+        x = ("v", rng.choice(D.VARS[:2]))
+        u = ("u", rng.choice(["not", "not", "negate", "abs"]), x)
+        a = rng.randint(0, 2)
+        other = rng.choice([("tb1", rng.choice(["once", "hist", "ev", "alw"]), a, a + rng.randint(0, 3), x),
+                            ("t1", rng.choice(["once", "hist", "ev", "alw"]), x), x, ("b", "ge", x, ("c", rng.choice([0.0, 1.0])))])
+        op = rng.choice(["and", "or", "implies"])
+        f = ("b", op, u, other) if rng.random() < 0.6 else ("b", op, other, u)
     else:
         f = g.formula(rng.choice([1, 2, 2, 3, 4]))
     sugar = None
